@@ -1,9 +1,26 @@
 import Babble.Proofs.HGOrder
 import Babble.Proofs.HGBlocks
+import Babble.Proofs.DagVote
 /-! # C04 — committed order extends causality; events are committed whole and once
-    About the operational model `Babble.HG`; no quorum reasoning, any validator-set behaviour. -/
+    About the operational model `Babble.HG` (no quorum reasoning, any validator-set behaviour) and,
+    for the two causality clauses, about the declarative model `Babble.Dag` (static validator set;
+    Lamport timestamps and round received of `Babble.Dag` are compared with the Go code on every
+    static view): an ancestor has a strictly smaller Lamport timestamp than its descendant
+    (`lamport_respects_ancestry`: never later within a block) and is received in the same or an
+    earlier round (`ancestors_received_no_later`: never in a later block). -/
 namespace Babble.Props.C04
 open Babble Babble.HG
+
+/-- **never later within a block**: the frame is sorted by Lamport timestamp first, and Lamport
+    timestamps strictly increase along ancestry -/
+theorem lamport_respects_ancestry (ps : List Nat) {a e : Dag.E} (h : Dag.Anc a e) (hne : a ≠ e) :
+    Dag.lamport ps a < Dag.lamport ps e := Dag.lamport_anc ps h hne
+
+/-- **never in a later block**: in any one view, an ancestor's round received is at most its
+    descendant's (blocks are made in increasing order of round received, C02) -/
+theorem ancestors_received_no_later {ps : List Nat} {V : Dag.E → Prop} {k : Nat} {a e : Dag.E} {i j : Int}
+    (h : Dag.Anc a e) (hi : Dag.RoundReceived ps V k e i) (hj : Dag.RoundReceived ps V k a j) : j ≤ i :=
+  Dag.round_received_mono h hi hj
 
 /-- a block contains exactly the payload of the events of one round received: its transactions are
     the concatenation, in committed order and each event's own order, of the frame events'
